@@ -15,7 +15,7 @@ TRUSTED_BASE = ["Spec/Digest.lean: enzyme geometries typed from REBASE (GGTCTC(1
                 "Go regexp on a literal site = leftmost non-overlapping scan (modelled; corresponded on every case)",
                 "ASCII input"]
 ASSUMPTIONS = ["inputs are ASCII", "custom enzymes carry literal (QuoteMeta) regular expressions for the site and its reverse complement"]
-PARTIAL = ["spec_rotation, cut_circular, cut_linear_inside, cut_geometry: not yet proved (stage 1: model, spec, correspondence and judge only; cut_case proved)"]
+PARTIAL = ["geometry clause for LINEAR parts (cut (linear s) ~ digestLin s on wfLinear layouts): judged on every generated linear case, not yet proved; proved for linear parts: cut_linear_inside, cut_case"]
 
 BUILTIN = {"BsaI": ("GGTCTC", 1, 4), "BbsI": ("GAAGAC", 2, 4), "BtgZI": ("GCGATG", 10, 4)}
 COMP = {"A": "T", "C": "G", "G": "C", "T": "A"}
@@ -331,7 +331,17 @@ def cases(seed, tier):
 TECHNIQUE = ("Lean 4 proof: CutWithEnzyme modelled statement by statement (doubling, literal-site scan, overhang records, modulo reduction, "
              "stable sort, pairing loop, slicing with Go bounds) and proved equal, as a multiset, to an independent cyclic-word spec; "
              "differential correspondence over every rotation")
-LEVEL_TEXT = ""
-LEVEL_NOTE = ""
+LEVEL_TEXT = ("Kernel-checked theorems about the statement-by-statement model of CutWithEnzyme, for sequences of every length, every "
+              "rotation offset and every non-palindromic ACGT site / skip / overhang >= 1: spec_rotation (the cyclic-word digestion is "
+              "invariant under moving the origin), cut_circular (on every layout of the quantifier the code's fragments are, as a multiset, "
+              "exactly the spec's: forward cut to the next cut when that is a reverse cut), cut_rotation_independent (hence the code's multiset "
+              "is the same at every rotation), cut_geometry (offsets of both overhangs, stretch between the two cuts, no other cut inside), "
+              "cut_linear_inside (every fragment of a linear part is a contiguous piece of it, any enzyme, directional or not), cut_case, "
+              "builtin_pinned / byName_eq (the built-in table is the REBASE geometry). The model is tied to clone.CutWithEnzyme by correspondence "
+              "on every generated case (fragment lists in order, panics included, ByName = direct call), and every real output is judged against "
+              "the spec as a multiset at every rotation (exhaustive over all rotations for plasmids up to 300 bases in the thorough tier).")
+LEVEL_NOTE = ("Trusted: Lean kernel; harness + pm_C10; REBASE geometries typed by hand in Spec/Digest.lean; Go regexp on a literal site "
+              "modelled as a leftmost non-overlapping scan (corresponded on every case, incl. self-overlapping sites outside the quantifier); "
+              "ASCII input; the complement table behind IsPalindromic is regenerated from the code on every run.")
 HARNESS_BIN = "run-clone"
 EXTRACT_BINS = ["extract-seq"]
